@@ -21,6 +21,10 @@ def store_types(prog):
     return None, None
 
 
+def _oid(b):
+    return getattr(b, 'orig_id', b.id)
+
+
 class DescModel:
     def __init__(self, prog):
         self.prog = prog
@@ -28,15 +32,42 @@ class DescModel:
         self.key_bodies = {}   # body id -> set of key variants constructed
         self.val_built = {}    # body id -> set of value variants constructed
         self.val_matched = {}  # body id -> set of value variants whose payload is extracted
+        self.views = {}        # body id -> the view it was read in (higher-order helpers / closures / trivial constructors opened)
         if not self.K:
             return
+        # read each body that deals with keys / descriptors with its private higher-order helpers, the closures handed to
+        # them and trivial constructors opened (`self.lookup(DescriptorKey::binary(op), |found| match found { .. }, ..)`);
+        # pure constructor helpers (`fn binary(op) -> DescriptorKey`) are not getters or setters themselves
+        def _ho(g):
+            return not g.is_closure and not g.j.get('reachable', g.is_pub) and any(
+                re.search(r'Fn(Mut|Once)?\(', g.locals[k]['ty']) or 'closure@' in g.locals[k]['ty'] or re.match(r'^(&(mut )?)?[A-Z]\w{0,3}$', g.locals[k]['ty'])
+                for k in range(1, g.arg_count + 1))
+        scan = []
+        swallowed = set()
         for b in prog.bodies:
+            if b.is_closure:
+                continue
+            if b.locals[0]['ty'] in (self.K, self.V) and not any(self.K in b.locals[k]['ty'] or self.V in b.locals[k]['ty'] for k in range(1, b.arg_count + 1)):
+                continue
+            if not any(self.K in l['ty'] or self.V in l['ty'] for l in b.locals):
+                scan.append(b)
+                continue
+            v = prog.view(b, keep=lambda g: not _ho(g), tag='desc-ho')
+            if getattr(v, 'is_view', False):
+                swallowed |= set(v.j.get('inlined') or [])
+                self.views[b.id] = v
+            scan.append(v)
+        for b in prog.bodies:
+            if b.is_closure and b.name not in swallowed:
+                scan.append(b)
+        for b0 in scan:
+            b = b0
             for bb, i, pl, rv in b.assigns():
                 if rv['k'] == 'agg' and rv['agg'] == 'adt':
                     if rv['adt'] == self.K:
-                        self.key_bodies.setdefault(b.id, set()).add(rv['variant'])
+                        self.key_bodies.setdefault(_oid(b), set()).add(rv['variant'])
                     elif rv['adt'] == self.V:
-                        self.val_built.setdefault(b.id, set()).add(rv['variant'])
+                        self.val_built.setdefault(_oid(b), set()).add(rv['variant'])
                 # unit variants may appear as constants instead of aggregates
                 for op in _rv_operands(rv):
                     self._const_variant(b, op)
@@ -62,7 +93,7 @@ class DescModel:
                             continue
                         rv = st['rv']
                         if rv['k'] == 'agg' and rv['agg'] == 'adt' and rv['adt'] == self.K:
-                            self.key_bodies.setdefault(b.id, set()).add(rv['variant'])
+                            self.key_bodies.setdefault(_oid(b), set()).add(rv['variant'])
                         for o2 in _rv_operands(rv):
                             self._const_variant(b, o2, 1)
             return
@@ -70,9 +101,9 @@ class DescModel:
             ty = op.get('ty', '')
             m = re.search(r'::(\w+)$', op.get('s', ''))
             if m and ty == self.K:
-                self.key_bodies.setdefault(b.id, set()).add(m.group(1))
+                self.key_bodies.setdefault(_oid(b), set()).add(m.group(1))
             elif m and ty == self.V:
-                self.val_built.setdefault(b.id, set()).add(m.group(1))
+                self.val_built.setdefault(_oid(b), set()).add(m.group(1))
 
     def _downcasts(self, b, pl):
         ty = b.locals[pl['l']]['ty']
@@ -80,7 +111,7 @@ class DescModel:
         for e in pl['p']:
             if isinstance(e, dict) and 'dc' in e:
                 if cur.lstrip('&').strip() == self.V or cur.endswith(self.V):
-                    self.val_matched.setdefault(b.id, set()).add(e['dc'])
+                    self.val_matched.setdefault(_oid(b), set()).add(e['dc'])
             if isinstance(e, dict) and 'ty' in e:
                 cur = e['ty']
             elif e == 'deref':
@@ -215,6 +246,7 @@ def rule_fallback(dm, getters):
     fb = {}
     for kv, bs in getters.items():
         for b in bs:
+            b = dm.views.get(b.id, b)
             region = _absent_region(prog, dm, b)
             if region is None:
                 obs.append(bad('TDESC', 'TDESC|fallback|%s' % kv, 'cannot find the absent-key path of %s (no is_none / None test on the store lookup)' % b.name, b.where(), body=b.name))
@@ -352,7 +384,7 @@ def _classify_arg(prog, d, op):
     did = getattr(d, 'orig_id', d.id)
     if o.kind == 'callres':
         c = o.data
-        if c.callee == 'std::vec::Vec::<T>::new' and not o.proj:
+        if c.callee in ('std::vec::Vec::<T>::new', 'std::vec::Vec::<T>::with_capacity') and not o.proj:
             # the loop an iterator pipeline was desugared to (view): V = Vec::new(); loop { V.push(describe(item)) }
             import r_order
             res = set()
